@@ -22,7 +22,7 @@ def units(tier, seed):
 
 def unit_item(args, prefix=(), max_depth=None):
     name = args['item']
-    core.set_width(8)
+    core.set_width(10)
     concepts = nondet.load_concepts(common.REPO)
     seen = {}
     pre = c17_corpus.prepare(concepts, name)
